@@ -129,6 +129,26 @@ round5 = {
 for k, v in round5.items():
     claimed[k]["text"] += v
 
+# parts added after the sixth round of seeded changes (DESIGN.md §11.7)
+round6 = {
+ "C01": " Incr with amount 0 (still a write) and SetRaw with PreserveExpiry are in the catalogue.",
+ "C03": " A third of the histories start with two documents that share one CAS (replicated versions): what is done to one must not show on the other. Forced window: a WriteUpdateWithXattrs whose callback asks for a tombstone must retry, not give up, when a rival deletes the document first.",
+ "C04": " Reopen pairs whose last write is a replicated version with a CAS ahead of the writer's clock: after the reopen with a rewound clock a CAS-checked regular write of that key must get a larger CAS. Append writes in the bucket-clock runs.",
+ "C06": " WriteCas without a body (a deletion) with CAS 0 / AddOnly is applied before the insert-style follow-ups.",
+ "C07": " Macro-expansion paths that name only the xattr (an argument error: no panic, nothing applied); xattr values followed by surplus closing braces / brackets / trailing text must be refused.",
+ "C09": " KeysOnly backfill events are compared with the KeysOnly live event of the same version (datatype, expiry, opcode). WithMeta writers take part in the join races.",
+ "C10": " (Reopen after an import from the future: see C04; the pair is run by both checks.)",
+ "C11": " An expression index is created on a sibling collection of the busy bucket in half of the non-interference runs. Stale-handle part: a DataStore asked for by name after the collection was dropped and re-created through another handle must be the collection that exists now. The earliest deadline of the bucket may sit in a collection that is dropped before it comes due.",
+ "C13": " On-disk URLs are passed as rosmar://dir, file://dir and as a plain path in turn. Cold-create storms: several goroutines open a bucket that does not exist yet; acknowledged writes must survive the close and reopen. NamedDataStore joins the closed-handle probes.",
+ "C14": " Deleted-with-an-expiry variants: the document carries the near deadline itself and is deleted through Delete / Remove / DeleteWithXattrs / WriteTombstoneWithXattrs / Update, or the tombstone is created by WriteTombstoneWithXattrs / UpdateXattrDeleteBody / DeleteWithMeta with an expiry argument. Order class earlier-deadline-dropped.",
+ "C16": " Feed kind multi-collection-partial: one part cannot start (unreadable checkpoint document); the call is refused, the caller's done channel must close once the terminator is closed or the store is gone.",
+ "C18": " Documents that use the empty string as a property name, addressed with paths that have empty components.",
+ "C19": " Real-time part: a document whose expiry time has come but which is not tombstoned yet must still have its row whenever Exists reports it right before and right after the query.",
+ "C20": " Feed starts include a multi-collection feed one of whose parts cannot start: nothing it leaves behind may outlive the store (goroutine profile).",
+}
+for k, v in round6.items():
+    claimed[k]["text"] += v
+
 pending_reason = "check under construction in this session (design in DESIGN.md); it is claimed once its monitors are built and silent on the unchanged tree"
 m = {
  "version": 1,
